@@ -122,6 +122,9 @@ def symeig(A: LinearOperator, neig: Optional[int] = None,
         else:
             # TODO: implement robust LOBPCG and put it here
             method = "exacteig"
+    elif isinstance(method, str):
+        # method names are case-insensitive (as in get_method)
+        method = method.lower()
     if neig is None:
         neig = A.shape[-1]
 
